@@ -66,7 +66,8 @@ Record env := mkEnv {
 }.
 
 Inductive everr := ErrStrOp (op : binop) | ErrUnknownFunction (name : text) | ErrArgCount | ErrInterpolate
-  | ErrOverflow (op : binop) | ErrNegOverflow | ErrLiteral.
+  | ErrOverflow (op : binop) | ErrNegOverflow | ErrLiteral
+  | ErrMixedOp (op : binop).           (* a number and a string, both known (repair 2b7ca67; before: `Ok(None)`, silently nothing) *)
 Inductive eres :=
   | EVal (v : option sval)      (* None: could not be evaluated (yet) *)
   | EErr (e : everr)
@@ -139,6 +140,7 @@ Fixpoint eval (en : env) (e : expr) : eres :=
                   match apply_i64 op a b with Val z => EVal (Some (SNum z)) | Panic => EPanic | Ovf => EErr (ErrOverflow op) end
               | Some (SStr a), Some (SStr b) =>
                   match try_apply_str op a b with Some v => EVal (Some v) | None => EErr (ErrStrOp op) end
+              | Some (SNum _), Some (SStr _) | Some (SStr _), Some (SNum _) => EErr (ErrMixedOp op)
               | _, _ => EVal None
               end
           end
